@@ -143,6 +143,7 @@ class Dmn(Family):
             steps.append(st("guest_read", [4, max(0, off - 2), 4]))
             steps.append(st("guest_read", [4, max(0, off + size - 2), 4]))
         table = []
+        addressed = set()
         gone = []                           # regions that were in the table earlier
         ev = [200]
         calls = {}
@@ -250,10 +251,16 @@ class Dmn(Family):
                         steps.append(st("guest_write", [r[4], fo], bytes([rng.below(256), rng.below(256)])))
                 steps.append(st("set_vring_addr", [q, rng.choice([0, 0, 1]), d, u, a]))
                 steps.append(st("queue_state", [q if q < nq else 0]))
+                if q < nq:
+                    addressed.add(q)
             elif k == 12:
                 steps.append(st("queue_state", [rng.below(nq)]))
             elif k == 13:
-                steps.append(st("add_used", [rng.below(nq), rng.choice([0, 1, 5, 63, 255, 256, 1023, 65535]), rng.below(2**32)]))
+                # mostly on rings whose addresses a SET_VRING_ADDR of this history determined: an add_used on a ring with
+                # undetermined addresses writes somewhere the oracle cannot follow and switches the byte oracle off
+                qq = rng.choice(sorted(addressed)) if addressed and rng.chance(9, 10) else rng.below(nq)
+                if addressed or rng.chance(1, 4):
+                    steps.append(st("add_used", [qq, rng.choice([0, 1, 5, 63, 255, 256, 1023, 65535]), rng.below(2**32)]))
             elif k == 14:
                 ev[0] += 1
                 calls[q] = ev[0]
